@@ -541,7 +541,7 @@ int main(int argc, char **argv)
 {
 	int depth;
 	nv_init(argc, argv);
-	depth = atoi(nv_arg(argc, argv, "depth", nv_thorough ? "6" : "4"));
+	depth = atoi(nv_arg(argc, argv, "depth", nv_thorough ? "5" : "4"));
 	nx_init(argc, argv, depth, 1 << 22);
 	nx_hist_name = hist_name;
 	nx_op_effect = op_effect;
